@@ -1,6 +1,7 @@
 package main
 
 import (
+	"strings"
 	"go/types"
 
 	"golang.org/x/tools/go/ssa"
@@ -82,8 +83,9 @@ func init() {
 		"(*sync.Mutex).Lock", "(*sync.Mutex).Unlock"} {
 		name := n
 		reg(name, func(in *Interp, fn *ssa.Function, args []value) (value, bool) {
-			if h := in.syncHook; h != nil {
-				h(name, args[0])
+			if in.sched != nil {
+				kind := map[string]string{"RLock": "rlock", "RUnlock": "runlock", "Lock": "lock", "Unlock": "unlock"}[name[strings.LastIndex(name, ".")+1:]]
+				in.schedEvent(kind, args[0])
 			}
 			return nil, true
 		})
